@@ -393,7 +393,7 @@ async fn consume(ctx: &Ctx, mut receiver: aldrin::low_level::Receiver) {
                 ctx.log.ret(&ctx.name, "next_item", id, "ok", json!({"k": k, "cookie": receiver.cookie().0.to_string()}));
             }
             Ok(None) => {
-                ctx.log.ret(&ctx.name, "next_item", id, "end", json!({}));
+                ctx.log.ret(&ctx.name, "next_item", id, "end", json!({"cookie": receiver.cookie().0.to_string()}));
                 break;
             }
             Err(e) => {
